@@ -133,6 +133,13 @@ CHECKS = {
                      "(header-only frame, free payload octet / free digit), candidate lists [HDLC], [P1], [HDLC,P1], [P1,HDLC], stuffing variant, several splittings.",
                 note="Trusted: z3, symx proxies (every path replayed on the pristine protocol classes with concrete stub readers / real readers).",
                 technique="symbolic execution of the real data_received/message_received with stub readers whose outputs are free z3 Booleans/ints, compared with a reference per path"),
+    "C20": dict(level="model_checking", design="§4 C20",
+                text="The real to_obis_tupple/Obis.from_string run with the repository's combined regular expression interpreted over symbolic characters: all 16 presence patterns of the reduced form and "
+                     "the six-part form, every group rendered as 1..2/3 free digits (value <= 255, leading zeros); malformed strings of 1..4/6 characters over digits, separators, letters and blanks "
+                     "without digit.digit must raise ValueError; == on two free group tuples (16x16 presence patterns) <=> component equality, equal objects hash equally; C.D.E string; round trip "
+                     "from_string(to_reduced_str()) for all presence patterns with optional groups non-zero; comparison with strings. Complete over the stated domain.",
+                note="Trusted: z3, the regex interpreter (built from re._parser's parse tree of the repository's own pattern; every path replayed against the real re module), f-string rewrites from source, hash() as an uninterpreted function.",
+                technique="bounded symbolic execution of the real parser/formatter with a symbolic regex interpreter and symbolic characters (z3 per path)"),
 }
 
 NOT_YET = {}
